@@ -11,6 +11,7 @@ Clauses(ob) ==
   \o (IF ob.includes # P(ob)!Includes(ob.inst, <<>>, ob.opts.top)
                         \o (IF ob.opts.ser THEN <<"#include <boost/serialization/export.hpp>">> ELSE <<>>)
       THEN <<"C16:includes-differ">> ELSE <<>>)
+  \o (IF \E i \in 1..Len(ob.spell) : CppSpelling(ob.spell[i].st) # ob.spell[i].cpp THEN <<"C04:type-spelling-loses-declared-markers">> ELSE <<>>)
   \o (IF ob.export # P(ob)!ExportLines(ob.inst, ob.opts) THEN <<"C03:serialization-exports-differ">> ELSE <<>>)
 Next ==
   /\ pos <= Len(Batch)
